@@ -347,7 +347,7 @@ impl Gen {
 
     fn value(&mut self, big: bool) -> Vec<u8> {
         let n = if big {
-            self.rng.range(100, 1200) as usize
+            self.rng.range(100, 600) as usize
         } else if self.rng.chance(1, 10) {
             self.rng.range(120, 300) as usize
         } else {
@@ -1016,15 +1016,18 @@ impl Gen {
                 }
             }
             _ => {
+                // the model's feed costs O(buffered octets) per chunk: keep the number of chunks of a
+                // long stream moderate (fine-grained cuts are exercised on the short streams)
+                let fine = bytes.len() <= 1500;
                 let mut i = 0;
                 while i < bytes.len() {
                     let n = match self.rng.below(6) {
-                        0 => 1,
-                        1 => self.rng.range(1, 3),
-                        2 => self.rng.range(1, 9),
-                        3 => self.rng.range(1, 64),
-                        4 => self.rng.range(1, 2000),
-                        _ => self.rng.range(1, 20000),
+                        0 if fine => 1,
+                        1 if fine => self.rng.range(1, 3),
+                        2 if fine => self.rng.range(1, 9),
+                        3 => self.rng.range(9, 64),
+                        4 => self.rng.range(64, 2000),
+                        _ => self.rng.range(100, 20000),
                     } as usize;
                     let n = n.min(bytes.len() - i);
                     if self.rng.chance(1, 4) {
@@ -1376,7 +1379,7 @@ fn expected_header_list(w: &WFrame) -> Vec<(String, Vec<u8>)> {
 
 impl Gen {
     fn wfields(&mut self, large: bool) -> Vec<(String, Vec<u8>)> {
-        let n = if large { self.rng.range(3, 30) } else { self.rng.range(0, 5) } as usize;
+        let n = if large { self.rng.range(3, 12) } else { self.rng.range(0, 5) } as usize;
         (0..n)
             .map(|_| {
                 let name = String::from_utf8(self.name()).unwrap();
@@ -1402,7 +1405,7 @@ impl Gen {
                     8 => self.rng.range(0, 20) as usize,
                     _ => self.rng.range(0, (2 * chain) as u64) as usize,
                 };
-                let n = if n > 3000 && !self.rng.chance(1, 4) { n % 3000 } else { n.min(30_000) };
+                let n = if n > 2500 && !self.rng.chance(1, 6) { n % 2500 } else { n.min(30_000) };
                 WFrame::Data { sid, es: self.rng.chance(1, 3), data: self.rng.bytes(n) }
             }
             4..=6 => {
@@ -1627,11 +1630,11 @@ fn main() {
                     let short = tag.split('_').take(2).collect::<Vec<_>>().join("_");
                     g.tick(&short);
                 }
-                let styles: Vec<u64> = if mode == "readchunk" { vec![0, 1, 2, 2] } else { vec![g.rng.below(3)] };
+                let styles: Vec<u64> = if mode == "readchunk" { vec![0, 1, 2] } else { vec![g.rng.below(3)] };
                 let group = cases;
                 for st in styles {
                     // byte-at-a-time over a huge stream is slow in the Coq evaluation; keep it bounded
-                    let st = if st == 1 && bytes.len() > 6000 { 2 } else { st };
+                    let st = if st == 1 && bytes.len() > 1500 { 2 } else { st };
                     let items = g.chunking(&bytes, st);
                     let (events, eof_io) = run_read(max_frame, max_hls, &items);
                     g.tick(&format!("chunking_{}", st));
